@@ -96,10 +96,8 @@ func (frame *Frame) prepareAvcHeader(sps, pps []byte) {
 		}
 	}
 
-	// 7-9, ignore, @see: ngx_rtmp_hls_video
-	if nalUnitType >= h264.NalSps && nalUnitType <= h264.NalAud {
-		return
-	}
+	// 7-9: no AUD/SPS/PPS is inserted in front of them, but like every other
+	// NAL unit they still need the AnnexB start code written in step 2.
 
 	// step 2:
 	// output the "real" sample, in buf.
